@@ -42,6 +42,9 @@ def modcovar_marple (X,IP):
     :References: [Marple]_
     """
     Pv = []
+    X = np.asarray(X)
+    if X.dtype.kind in 'iub':
+        X = X.astype(float)   # integer samples: no arithmetic in the sample type
     N = len(X)
     A = np.zeros(N, dtype=complex)
     D = np.zeros(N, dtype=complex)
